@@ -42,7 +42,7 @@ def handleFault (l : Line) : List Verdict :=
       update := persistent && flabel == "SETXX-KEEPTTL session",
       del := persistent && flabel == "DEL session" }
     let plan : IdpPlan := if flabel.startsWith "IDP" then
-        (match fkind with | "idp4xx" => .clientErr | "idp4xx-html" => .clientErr | "idp4xx-empty" => .clientErr | "idpgarbage" => .broken | _ => if persistent then .serverErr else .ok secs)
+        (match fkind with | "idp4xx" => .clientErr | "idp4xx-html" => .clientErr | "idp4xx-empty" => .clientErr | "idpgarbage" => .broken | "idpgarbage-typed" => .broken | _ => if persistent then .serverErr else .ok secs)
       else .ok secs
     let cfg : Cfg := { mode := .standalone, forwardAuth := true }
     let st := toStoreSt pre
